@@ -304,10 +304,10 @@ PROPS["C06"]["harnesses"] = I1 + I2 + I3
 PROPS["C06"]["functions"] += ["Object::{push,push_entry,push_front,push_entry_front,insert,remove_at,remove,remove_unique,len,is_empty,contains_key,index_of,redundant_index_of,indexes_of,get,get_entries_with_index,get_unique}",
                               "RemovedByInsertion/RemovedEntries iterators and their Drop"]
 
-C09H = [H(_OV + "c09_member_order_is_utf16_1char", "in", "quick", 600, "two one-character keys, each any Unicode scalar value (all 1,112,064^2 pairs); values over {null,false,true}", "unwind 6"),
+C09H = [H(_OV + "c09_member_order_is_utf16_1char", "in", "quick", 600, "two one-character keys, each any Unicode scalar value (all 1,112,064^2 pairs); values any boolean", "unwind 6"),
         H(_OV + "c09_member_order_is_utf16_2chars", "in", "quick", 1200, "two keys of 0..=2 characters, each character any Unicode scalar value", "unwind 8")]
-C10H = [H(_OV + "c10_comparator_is_a_total_order", "in", "quick", 1800, "three entries, keys of 0..=2 arbitrary characters, values over {null,false,true}", "unwind 8", gb=4.0),
-        H(_OV + "c10_canonicalize_leaves_non_number_scalars_alone", "in", "quick", 600, "null / any boolean / any string of 0..=2 arbitrary characters", "unwind 6")]
+C10H = [H(_OV + "c10_comparator_is_a_total_order", "in", "quick", 1800, "three entries, keys of 0..=1 arbitrary characters, values any boolean", "unwind 8", gb=4.0)] + \
+       [H(_OV + "c10_canonicalize_leaves_%s_alone" % k_, "in", "quick", 900, d_, "unwind 6") for k_, d_ in (("null", "null"), ("booleans", "any boolean"), ("strings", "any string of 0..=1 arbitrary characters"))]
 C08S = [h for h in PROPS["C13"]["harnesses"] if "c08_" in h["name"]]
 I3S = [H(_OV + "i3_sort_" + p_, "in", "quick", 1800, (_OBJ % p_) + " with null values; Object::sort", "unwind 6", gb=5.0) for p_ in ("ab", "aa")]
 PROPS["C06"]["harnesses"] = PROPS["C06"]["harnesses"] + I3S
@@ -337,10 +337,11 @@ PROPS["C10"] = dict(
 C14O = [H(_OV + "c14_index_independence_" + p_, "in", "quick", 900, (_OBJ % p_) + " vs. the same entries with an EMPTY index, and vs. the same keys with other symbolic values", "unwind 10", gb=6.0) for p_ in ("empty", "a", "aa", "ab")] + \
        [H(_OV + "c14_clone_" + p_, "in", "quick", 900, _OBJ % p_, "unwind 6", gb=6.0) for p_ in ("a", "aa", "ab")] + \
        [H(_OV + "c14_prefix_" + p_, "in", "quick", 1800, (_OBJ % p_) + " vs. its strict prefix (one entry fewer)", "unwind 10", gb=5.0) for p_ in ("a",)]
-C14E = [H("order::c14_laws_scalars", "ext", "quick", 1800, "three scalars: null / any boolean / number from 6 spellings / string of 0..=2 arbitrary characters", "unwind 10", gb=4.0),
-        H("order::c14_laws_value_slices", "ext", "quick", 2400, "three [Value] slices of length 0..=2 over scalars with strings of <= 1 arbitrary character", "unwind 10", gb=6.0),
-        H("order::c14_laws_entries", "ext", "quick", 1800, "three entries: keys of 0..=2 arbitrary characters, values null / boolean / number", "unwind 10", gb=4.0),
-        H("order::c14_laws_entry_slices", "ext", "quick", 2400, "three [Entry] slices of length 0..=2, keys of <= 1 arbitrary character", "unwind 10", gb=6.0)]
+_VK = "variant combination concrete per instance (n null, b boolean, # number from 6 spellings, $ string), payloads symbolic"
+C14E = [H("order::c14_laws_scalars_" + k_, "ext", "quick", 1200, "three scalars, %s; strings of 0..=2 arbitrary characters" % _VK, "unwind 10", gb=3.0) for k_ in ("bbb", "nums", "strs", "nbn", "bns", "snb", "nns")] + \
+       [H("order::c14_laws_value_slices_" + k_, "ext", "quick", 1500, "three [Value] slices (lengths concrete per instance: 2/2/2 or 1/2/0), %s; strings of <= 1 arbitrary character" % _VK, "unwind 10", gb=4.0) for k_ in ("bools", "prefix", "mixed")] + \
+       [H("order::c14_laws_entries_" + k_, "ext", "quick", 1200, "three entries: keys of 0..=2 arbitrary characters, values %s" % _VK, "unwind 10", gb=3.0) for k_ in ("bbb", "nums", "mixed")] + \
+       [H("order::c14_laws_entry_slices_" + k_, "ext", "quick", 1500, "three [Entry] slices (lengths concrete per instance: 2/2/2 or 1/2/2), keys of <= 1 arbitrary character, values %s" % _VK, "unwind 10", gb=4.0) for k_ in ("bools", "prefix")]
 
 PROPS["C14"] = dict(
 	design_ref="DESIGN.md §4 C14",
